@@ -6,10 +6,20 @@ Init == l = 1
 Why(tag, a, b) == PrintT("REJECT " \o ToJson([l |-> l, tag |-> tag, expected |-> a, observed |-> b]))    \* reported; the rest of the trace is still judged
 Next == /\ l <= Len(Rec)
         /\ LET ev == Rec[l] cfg == ev.cfg run == ev.run IN
-           /\ IF ev.total_stats = Total(run) THEN TRUE ELSE Why("total_stats", Total(run), ev.total_stats)
-           /\ IF ev.has_report => ev.total_report = Total(run) THEN TRUE ELSE Why("total_report", Total(run), ev.total_report)
-           /\ IF ev.displayed = Displayed(cfg, run) THEN TRUE ELSE Why("displayed", Displayed(cfg, run), ev.displayed)
-           /\ IF ev.rc = ExitIntended(cfg, run) THEN TRUE ELSE Why("exit", ExitIntended(cfg, run), ev.rc)
+           CASE ev.kind = "run" ->
+                /\ IF ev.total_stats = Total(run) THEN TRUE ELSE Why("total_stats", Total(run), ev.total_stats)
+                /\ IF ev.has_report => ev.total_report = Total(run) THEN TRUE ELSE Why("total_report", Total(run), ev.total_report)
+                /\ IF ev.displayed = Displayed(cfg, run) THEN TRUE ELSE Why("displayed", Displayed(cfg, run), ev.displayed)
+                /\ IF cfg.cap = 0 \/ Len(ev.displayed) <= cfg.cap THEN TRUE ELSE Why("cap", cfg.cap, Len(ev.displayed))
+                /\ IF ev.rc = ExitIntended(cfg, run) THEN TRUE ELSE Why("exit", ExitIntended(cfg, run), ev.rc)
+                \* a statistics file of another input is reported as not matching, the run's own file as matching (C15 round trip)
+                /\ IF cfg.mute \/ ev.mismatch_reported = run.mismatch THEN TRUE ELSE Why("mismatch_reported", run.mismatch, ev.mismatch_reported)
+             \* invalid option combinations are refused (non-zero status) before any output is written
+             [] ev.kind = "badoptions" ->
+                /\ IF ev.rc # 0 THEN TRUE ELSE Why("refused", "non-zero", ev.rc)
+                /\ IF ~ev.outputs_exist THEN TRUE ELSE Why("no_output", FALSE, ev.outputs_exist)
+             \* unreadable or unrecognisable input: non-zero status
+             [] ev.kind = "badinput" -> IF ev.rc # 0 THEN TRUE ELSE Why("refused", "non-zero", ev.rc)
         /\ l' = l + 1
 Spec == Init /\ [][Next]_l
 Accepted == IF TLCGet("stats").diameter - 1 = Len(Rec) THEN TRUE
